@@ -205,6 +205,27 @@ fn c03(leaf: &mut Leaf, lines: &[Line], ds: &[IDisposal], holdings: &BTreeMap<St
 
 fn c05_ok(leaf: &mut Leaf, lines: &[Line]) {
     leaf.ob("C05.accepted-implies-covered", &covered(lines));
+    // boundary witnesses: inputs of this path on which some sale disposes of the ENTIRE holding. They are replayed on the
+    // real build, where 28-digit decimal residue (not modelled symbolically) could make the tool refuse a covered sale.
+    if !vx::SYMBOLIC {
+        return;
+    }
+    let mut bw = Vec::new();
+    for (t, d, h) in spec::holdings_after_each_sale_day(lines) {
+        if bw.len() >= 2 {
+            break;
+        }
+        if let Some(w) = vx::witness_with(&[vx::eq_l(&format!("entire holding of {t} sold on day {d}"), h, Decimal::ZERO)]) {
+            let mut o = serde_json::Map::new();
+            for (k, v) in w {
+                o.insert(k, serde_json::Value::String(v));
+            }
+            bw.push(serde_json::Value::Object(o));
+        }
+    }
+    if !bw.is_empty() {
+        leaf.extra["boundary_witnesses"] = serde_json::Value::Array(bw);
+    }
 }
 
 fn c05_err(leaf: &mut Leaf, sk: &Skeleton, lines: &[Line], msg: &str) {
